@@ -1,8 +1,58 @@
 """C10 — A deletion request can never remove another author's events."""
+import os, shutil
 from ._store import run_store
+from ..common import hx, RUNDIR
+from ..gen import ev_tok, AUTHORS
+from ..storecheck import HistGen
+from ..conc import forced, STORE_POINTS
 
 THEOREMS = ['foreign_delete_harmless', 'no_marker_on_foreign_event', 'no_marker_on_foreign_address', 'foreign_history_harmless']
 
 
+def races(c, runner):
+    """another author's deletion request overlapping the store of its target: the victim's store is paused at each
+    yield point of its write transaction while the foreign request (naming the victim by id and, for addressable
+    kinds, by address) is submitted; whatever the request returns, a victim whose store succeeded stays retrievable
+    and unmarked (oracle: the property text)."""
+    rng = c.rng
+    Q = c.tier == 'quick'
+    base = os.path.join(RUNDIR, 'C10r-%d' % os.getpid())
+    os.makedirs(base, exist_ok=True)
+    try:
+        scen = []
+        for k in range(3 if Q else 30):
+            g = HistGen(rng, 'C10')
+            va, fa = rng.sample(AUTHORS, 2)
+            kind = [1, 30023, 10002][k % 3]
+            x = g.new_event(kind=kind, pk=va, t=rng.choice([100, 1000]), tags=[[b'd', b'x']], content=b'victim')
+            own = g.new_event(kind=1, pk=fa, content=b'own')
+            tags = [[b'e', own['id'].hex().encode()]] if rng.random() < 0.5 else []
+            tags.append([b'e', x['id'].hex().encode()])
+            if kind != 1 and rng.random() < 0.5:
+                tags.append([b'a', str(kind).encode() + b':' + va.hex().encode() + b':' + (b'x' if kind == 30023 else b'')])
+            d = g.new_event(kind=5, pk=fa, t=2000, tags=tags, content=b'')
+            pre = ['STO ' + ev_tok(own)]
+            X, D = 'STO ' + ev_tok(x), 'STO ' + ev_tok(d)
+            after = ['HAS ' + hx(x['id']), 'GID ' + hx(x['id']), 'DEL ' + hx(x['id']), 'HAS ' + hx(own['id'])]
+            for p in STORE_POINTS:
+                scen.append(dict(pre=pre, point=p, a=X, b=D, after=after, kind=kind))
+        for s_, r in zip(scen, forced(c, base, scen)):
+            if 'error' in r or 'HUNG' in r.get('raw', '') or 'panic' in r.get('raw', ''):
+                c.violation('oracle', 'forced schedule did not complete: %s' % (r.get('error') or r['raw'])[:90], r['lines'])
+                continue
+            c.count('race:%d:%s' % (s_['kind'], 'reached' if r['reached'] else 'not-reached'))
+            if not r['ra'].startswith('ok'):
+                continue
+            has, gid, dl, hown = r['after']
+            if has != '1' or not gid.startswith('some') or dl != '0':
+                c.violation('oracle', 'a deletion request of another author (reply %s) overlapping the store of its target (paused at %s): '
+                            'the victim, stored successfully, is %s afterwards' % (r['rb'][:12], s_['point'],
+                            'not retrievable' if has != '1' else 'marked deleted'), r['lines'])
+                continue
+            c.nontriv(('race', s_['kind'], s_['point'], r['lines'][-5][:60]))
+    finally:
+        shutil.rmtree(base, ignore_errors=True)
+
+
 def run():
-    run_store('C10', THEOREMS, """Focus: kind-5 requests with 0-5 e/a tags in every order mixing own / foreign / absent / malformed targets (bad hex, two-part address, non-numeric or +-prefixed kind, upper-case hex, address with a stray identifier); oracle: every event of another author that was retrievable before the request is retrievable and unmarked after it, no marker of another author's address changes, and a request naming a foreign target is refused as a whole.""", {'reply', 'live', 'markers', 'foreign'}, relevant={'STO', 'HAS', 'DEL', 'NAD'})
+    run_store('C10', THEOREMS, """Focus: kind-5 requests with 0-5 e/a tags in every order mixing own / foreign / absent / malformed targets (bad hex, two-part address, non-numeric or +-prefixed kind, upper-case hex, address with a stray identifier); oracle: every event of another author that was retrievable before the request is retrievable and unmarked after it, no marker of another author's address changes, and a request naming a foreign target is refused as a whole.""", {'reply', 'live', 'markers', 'foreign'}, relevant={'STO', 'HAS', 'DEL', 'NAD'}, extra=races)
